@@ -61,4 +61,182 @@ def astep (ds : List Fr) : GInstr → List Fr
 
 def arun (prog : List GInstr) : List Fr := prog.foldl astep []
 
+/-! ## The mixed machine (C16): registers of both groups, encode/decode round trips
+
+This is the machine the line-protocol programs `prog.group` are run on (the driver only parses
+the text of a step into an `MInstr` and calls `mstep`).  A step that the crate-level program
+cannot perform (index out of range, operands of different groups, an encoder panic or a
+decoder error) yields `none`. -/
+
+inductive Reg where
+  | p1 (p : G1)
+  | p2 (p : G2)
+
+/-- the three point encodings: raw `x ‖ y`, `04 ‖ x ‖ y`, `02/03 ‖ x` -/
+inductive Fmt where
+  | slice | uncompressed | compressed
+  deriving DecidableEq, Repr
+
+inductive MInstr where
+  | one1 | one2 | zero1 | zero2
+  | add (i j : Nat) | sub (i j : Nat) | neg (i : Nat)
+  | mul (i : Nat) (k : Fr)
+  | normalize (i : Nat) | affine (i : Nat)
+  | encdec (i : Nat) (fmt : Fmt)
+
+/-- encode, then decode; the identity is passed through (the encoders panic on it) -/
+def encDec1 (fmt : Fmt) (p : G1) : Option G1 :=
+  if p.is_zero then some p else
+  match fmt with
+  | .slice => match Api.g1ToSlice p with
+    | .ok b => (Api.g1FromSlice b).toOption | .panic => none
+  | .uncompressed => match Api.g1ToUncompressed p with
+    | .ok b => (Api.g1FromUncompressed b).toOption | .panic => none
+  | .compressed => match Api.g1ToCompressed p with
+    | .ok b => (Api.g1FromCompressed b).toOption | .panic => none
+def encDec2 (fmt : Fmt) (p : G2) : Option G2 :=
+  if p.is_zero then some p else
+  match fmt with
+  | .slice => match Api.g2ToSlice p with
+    | .ok b => (Api.g2FromSlice b).toOption | .panic => none
+  | .uncompressed => match Api.g2ToUncompressed p with
+    | .ok b => (Api.g2FromUncompressed b).toOption | .panic => none
+  | .compressed => match Api.g2ToCompressed p with
+    | .ok b => (Api.g2FromCompressed b).toOption | .panic => none
+
+/-- `AffineG::from_jacobian(p)` then `to_jacobian` (the identity has no affine form and is kept) -/
+def affRound {F} [FieldElement F] (p : G F) : G F :=
+  match p.to_affine with
+  | some a => a.to_jacobian
+  | none => p
+
+/-- the register computed by one instruction (`none`: the step cannot be performed) -/
+def mnew (regs : List Reg) : MInstr → Option Reg
+  | .one1 => some (.p1 G.one)
+  | .one2 => some (.p2 G.one)
+  | .zero1 => some (.p1 G.zero)
+  | .zero2 => some (.p2 G.zero)
+  | .add i j => match regs[i]?, regs[j]? with
+    | some (.p1 a), some (.p1 b) => some (.p1 (a.add b))
+    | some (.p2 a), some (.p2 b) => some (.p2 (a.add b))
+    | _, _ => none
+  | .sub i j => match regs[i]?, regs[j]? with
+    | some (.p1 a), some (.p1 b) => some (.p1 (a.sub b))
+    | some (.p2 a), some (.p2 b) => some (.p2 (a.sub b))
+    | _, _ => none
+  | .neg i => match regs[i]? with
+    | some (.p1 a) => some (.p1 a.neg)
+    | some (.p2 a) => some (.p2 a.neg)
+    | none => none
+  | .mul i k => match regs[i]? with
+    | some (.p1 a) => some (.p1 (a.mul k))
+    | some (.p2 a) => some (.p2 (a.mul k))
+    | none => none
+  | .normalize i => match regs[i]? with
+    | some (.p1 a) => some (.p1 (Api.normalize a))
+    | some (.p2 a) => some (.p2 (Api.normalize a))
+    | none => none
+  | .affine i => match regs[i]? with
+    | some (.p1 a) => some (.p1 (affRound a))
+    | some (.p2 a) => some (.p2 (affRound a))
+    | none => none
+  | .encdec i fmt => match regs[i]? with
+    | some (.p1 a) => (encDec1 fmt a).map .p1
+    | some (.p2 a) => (encDec2 fmt a).map .p2
+    | none => none
+
+/-- one step of the mixed machine; every successful step appends one register -/
+def mstep (regs : List Reg) (ins : MInstr) : Option (List Reg) :=
+  match mnew regs ins with
+  | some x => some (regs ++ [x])
+  | none => none
+
+/-- run from a given register file -/
+def mrunFrom : List Reg → List MInstr → Option (List Reg)
+  | regs, [] => some regs
+  | regs, ins :: rest => match mstep regs ins with
+    | some regs' => mrunFrom regs' rest
+    | none => none
+
+def mrun (prog : List MInstr) : Option (List Reg) := mrunFrom [] prog
+
+/-! observations of the mixed machine -/
+
+/-- `==` of two registers; `none` for registers of different groups -/
+def Reg.eqObs : Reg → Reg → Option Bool
+  | .p1 a, .p1 b => some (a.eq b)
+  | .p2 a, .p2 b => some (a.eq b)
+  | _, _ => none
+def Reg.isZero : Reg → Bool
+  | .p1 p => p.is_zero
+  | .p2 p => p.is_zero
+/-- the last G1 and the last G2 register (operands of the three pairings) -/
+def lastOf (regs : List Reg) : Option G1 × Option G2 :=
+  regs.foldl (fun (acc : Option G1 × Option G2) rg =>
+    match rg with
+    | .p1 p => (some p, acc.2)
+    | .p2 p => (acc.1, some p)) (none, none)
+
+/-! ## The abstract mixed machine: (group tag, discrete logarithm in Z_r)
+
+`true` tags G1, `false` tags G2 (as in the driver's `specStep`).  It fails exactly on a bad
+index or on operands of different groups. -/
+
+def anew (ds : List (Bool × Fr)) : MInstr → Option (Bool × Fr)
+  | .one1 => some (true, 1)
+  | .one2 => some (false, 1)
+  | .zero1 => some (true, 0)
+  | .zero2 => some (false, 0)
+  | .add i j => match ds[i]?, ds[j]? with
+    | some a, some b => if a.1 != b.1 then none else some (a.1, a.2 + b.2)
+    | _, _ => none
+  | .sub i j => match ds[i]?, ds[j]? with
+    | some a, some b => if a.1 != b.1 then none else some (a.1, a.2 - b.2)
+    | _, _ => none
+  | .neg i => match ds[i]? with
+    | some a => some (a.1, -a.2)
+    | none => none
+  | .mul i k => match ds[i]? with
+    | some a => some (a.1, a.2 * k)
+    | none => none
+  | .normalize i => ds[i]?
+  | .affine i => ds[i]?
+  | .encdec i _ => ds[i]?
+
+def astep2 (ds : List (Bool × Fr)) (ins : MInstr) : Option (List (Bool × Fr)) :=
+  match anew ds ins with
+  | some x => some (ds ++ [x])
+  | none => none
+
+def arunFrom2 : List (Bool × Fr) → List MInstr → Option (List (Bool × Fr))
+  | ds, [] => some ds
+  | ds, ins :: rest => match astep2 ds ins with
+    | some ds' => arunFrom2 ds' rest
+    | none => none
+
+def arun2 (prog : List MInstr) : Option (List (Bool × Fr)) := arunFrom2 [] prog
+
+/-- the logs of the last G1 and the last G2 register -/
+def alastOf (ds : List (Bool × Fr)) : Option Fr × Option Fr :=
+  ds.foldl (fun (acc : Option Fr × Option Fr) x => if x.1 then (some x.2, acc.2) else (acc.1, some x.2)) (none, none)
+
+/-- the step is a compressed encode/decode of a G2 register holding a non-identity value
+    (the one operation whose exact round trip is proved only under a side condition) -/
+def isG2Compressed (ds : List (Bool × Fr)) : MInstr → Bool
+  | .encdec i .compressed => match ds[i]? with
+    | some (false, d) => d.val != 0
+    | _ => false
+  | _ => false
+
+def noG2CompressedFrom : List (Bool × Fr) → List MInstr → Bool
+  | _, [] => true
+  | ds, ins :: rest => !(isG2Compressed ds ins) && match astep2 ds ins with
+    | some ds' => noG2CompressedFrom ds' rest
+    | none => true
+
+/-- no step of the program applies the compressed encode/decode round trip to a non-identity G2 value -/
+def NoG2Compressed (prog : List MInstr) : Prop := noG2CompressedFrom [] prog = true
+
+instance (prog : List MInstr) : Decidable (NoG2Compressed prog) := by unfold NoG2Compressed; infer_instance
+
 end Sm9
